@@ -90,6 +90,7 @@ func c13(c *core.Check) {
 		c.Min(k, 1)
 	}
 	c13keyKinds(c)
+	headTailPartition(c)
 }
 
 // c13keyKinds (M5): the generator and the mask library must classify map key types identically. The templates pick the
